@@ -5,8 +5,13 @@ package main
 import (
 	"encoding/json"
 	"fmt"
+	"net"
+	"os"
+	"path/filepath"
 	"sort"
+	"strings"
 	"sync"
+	"time"
 
 	"verifh/ev"
 	"verifh/pool"
@@ -113,7 +118,79 @@ func finishScenarios(run *ev.Run, execs, nScen, bound int, extraRule string) {
 	run.Coverage["rule"] = "every schedule of the scenario threads at lock acquisitions of the real code (cooperative scheduler), depth-first over choice prefixes up to the preemption bound; one execution = fresh real server + set-up + controlled run; distinct = (observations, canonical final state) outcomes; oracle: no panic, no deadlock, all mutexes free, CheckInvariants passes, outcome is one of the sequential orders' outcomes" + extraRule
 }
 
+// c13UDPBurst: two datagrams reach the REAL UDP listener while every handler has to wait for the server mutex (the
+// harness holds it); once it is released both reports must have been integrated, exactly as if they had been
+// handled one after the other. A datagram that the loopback interface lost is inconclusive; a report missing while
+// the server's log says it handled a duplicate is a datagram overwritten before its handler read it.
+func c13UDPBurst() *jobReport {
+	rep := &jobReport{Reasons: map[string]int{}}
+	w, err := newStdWorld("c13udp")
+	if err != nil {
+		rep.fail("harness/setup", err.Error())
+		return rep
+	}
+	defer func() {
+		if p := safely(func() { w.Close() }); p != "" {
+			rep.fail("close-panic", firstLine(p))
+		}
+		w.Cleanup()
+	}()
+	w.setNow(1000)
+	_, _, udp := w.S.Ports()
+	conn, err := net.Dial("udp", fmt.Sprintf("127.0.0.1:%d", udp))
+	if err != nil {
+		rep.fail("harness/dial", err.Error())
+		return rep
+	}
+	defer conn.Close()
+	for round := 0; round < 3; round++ {
+		tsA, tsB := uint32(1003+10*round), uint32(1004+10*round)
+		a, b := signedReport(1, tsA, 50, w.A.Priv), signedReport(1, tsB, 60, w.A.Priv)
+		logPath := filepath.Join(w.Dir, "server.log")
+		fi, _ := os.Stat(logPath)
+		w.S.VerifHoldMu(func() {
+			conn.Write(a)
+			time.Sleep(40 * time.Millisecond)
+			conn.Write(b)
+			time.Sleep(80 * time.Millisecond)
+		})
+		has := func() (bool, bool) {
+			var ha, hb bool
+			for _, sl := range w.S.VerifSnapshot().Reports[1] {
+				ts := w.S.VerifSnapshot().ReportsOffset + sl.Index
+				ha = ha || (ts == tsA && sl.Report.PowerOutput == 50)
+				hb = hb || (ts == tsB && sl.Report.PowerOutput == 60)
+			}
+			return ha, hb
+		}
+		deadline := time.Now().Add(3 * time.Second)
+		ha, hb := has()
+		for !(ha && hb) && time.Now().Before(deadline) {
+			time.Sleep(5 * time.Millisecond)
+			ha, hb = has()
+		}
+		rep.Evals++
+		if ha && hb {
+			rep.Reasons["both datagrams of a burst integrated"]++
+			rep.Accepted++
+			continue
+		}
+		lb, _ := os.ReadFile(logPath)
+		tail := ""
+		if fi != nil && int64(len(lb)) >= fi.Size() {
+			tail = string(lb[fi.Size():])
+		}
+		if strings.Contains(tail, "duplicate report") {
+			rep.fail("datagram-overwritten-before-its-handler-read-it", map[string]interface{}{"first_integrated": ha, "second_integrated": hb, "log": tailStr(tail, 600)})
+			return rep
+		}
+		rep.Inconclusive = append(rep.Inconclusive, fmt.Sprintf("UDP burst round %d: a datagram did not arrive (first=%v second=%v) and the log shows no duplicate handling: loss on the loopback interface, inconclusive", round, ha, hb))
+	}
+	return rep
+}
+
 func init() {
+	pool.Register("c13udp", func(data json.RawMessage) (interface{}, error) { return c13UDPBurst(), nil })
 	checks["C13"] = func(tier string) int {
 		run := newRun("C13", tier, "model_checking")
 		bound := 2
@@ -124,6 +201,29 @@ func init() {
 		defs := append(append(c13Scenarios(), c07Scenario()), c13RaceOnly()...)
 		execs, ok := runScenarios(run, defs, bound, p)
 		lockPaths(run, "server", "glow")
+		// the real UDP listener: a burst of two datagrams while handlers wait for the mutex
+		for _, r := range pool.New(1).Map("c13udp", []interface{}{struct{}{}}, nil) {
+			var jr jobReport
+			if r.Err != "" || r.Panic != "" || r.Timeout || json.Unmarshal(r.Data, &jr) != nil {
+				fmt.Println("HARNESS ERROR: UDP burst job:", r.Err, firstLine(r.Panic), r.Timeout)
+				run.Count("harness_errors", 1)
+				ok = false
+				continue
+			}
+			for _, v := range jr.Violations {
+				if strings.HasPrefix(v.Sig, "harness/") {
+					fmt.Println("HARNESS ERROR:", v.Sig, v.Detail)
+					run.Count("harness_errors", 1)
+					ok = false
+					continue
+				}
+				run.Violation(v.Sig, map[string]interface{}{"detail": v.Detail, "replay": mkReplay("c13udp", struct{}{})})
+			}
+			for _, inc := range jr.Inconclusive {
+				run.NotExhaustive(inc)
+			}
+			run.Coverage["udp_bursts_through_the_real_listener"] = jr.Evals
+		}
 		run.Coverage["race_pass"] = racePass("c13")
 		if rp, _ := run.Coverage["race_pass"].(map[string]interface{}); rp != nil {
 			if n, _ := rp["data_races"].(int); n > 0 {
